@@ -289,6 +289,20 @@ def gen_case(rng):
             elif pool and path is None and rng.random() < 0.7:
                 t["nodes"] = list(t["nodes"]) + rng.sample(pool, min(2, len(pool)))
         shapes.append(s)
+    # a parameter with several values is a conjunction: each value is a constraint of its own, and the verdict of the component is
+    # 'conforms' only if every one of them is satisfied - whichever is evaluated last
+    if rng.random() < 0.3:
+        ca, cb = rng.sample(S.CLASSES, 2)
+        xs = rng.sample(iri_nodes, min(2, len(iri_nodes)))
+        for x_, c_ in zip(xs, (ca, cb)):
+            for t_ in list(data.triples((x_, RDF.type, None))):
+                data.remove(t_)
+            data.add((x_, RDF.type, c_))
+        for k_, x_ in enumerate(xs):
+            s = S.new_shape(EX["MC%d" % k_], None)
+            s["targets"]["nodes"] = [x_]
+            s["comps"].append(rng.choice([("class", [ca, cb]), ("class", [ca, cb]), ("datatype_none", None)]) if False else ("class", [ca, cb]))
+            shapes.append(s)
     # closed shapes with property shapes
     if rng.random() < 0.35:
         # on a node shape the closed node is the focus node; on a property shape it is each value node
